@@ -129,6 +129,13 @@ def run_aht(chk, binp, wd):
         for res, name in tl:
             chk.add_tlc(res, name)
         vlib.absorb(chk, r)
+    # operations of AHT.tla are atomic: a proof generated while the tree is rolled back and re-appended is the proof of one of the states
+    dd = os.path.join(wd, "conc")
+    out, _ = vlib.run_harness(binp, ["-conc", "400" if thorough else "120", "-seed", str(chk.seed), "-dir", dd])
+    rc = json.loads(out)
+    if not (rc.get("counters") or {}).get("conc:mutation-started-inside-the-proof-call"):
+        raise MachineryFault("concurrent probe is vacuous: the mutation never started inside a proof call")
+    vlib.absorb(chk, rc)
     chk.assumptions.append("AHT state machine: fixed-size payloads (slots), process kill keeps exactly what was written to the files")
 
 
